@@ -12,7 +12,8 @@
 //!   via    9: every element calls an unsafe fn WITHOUT an unsafe block (as for the native literal: rejected,
 //!             whenever there is an element expression at all)
 //!   via   12: the invocation sits in a scope that SHADOWS the names an unhygienic expansion could pick up: local items
-//!             `Box`, `Vec`, `GenericArray`, `Option`, `Default` and a local `vec!` macro (paths in a macro_rules!
+//!             `Box`, `Vec`, `GenericArray`, `Option`, `Result`, `Default`, local variants `Ok` / `Err` / `Some` / `None` and a
+//!             local `vec!` macro (paths in a macro_rules!
 //!             transcriber resolve at the call site unless they start with `$crate`)
 //!   via   11: list forms (0, 1, 6) whose FIRST element carries `#[cfg(any())]`: the element is compiled out, as in the
 //!             native literal `[#[cfg(any())] e0, e1, ..]`, so the array has one element less (and e0 is not evaluated)
@@ -129,7 +130,7 @@ fn case_body(c: &[i128]) -> String {
     }
     // via 12: the caller's scope shadows Box / Vec / GenericArray / Option / Default / vec!
     if via == 12 {
-        let sh = "#[allow(dead_code)] struct Box; #[allow(dead_code)] struct Vec; #[allow(dead_code)] struct GenericArray; #[allow(dead_code)] struct Option; #[allow(dead_code)] struct Default; #[allow(unused_macros)] macro_rules! vec { ($($t:tt)*) => { compile_error!(\"the caller's own vec! macro\") } }";
+        let sh = "#[allow(dead_code)] struct Box; #[allow(dead_code)] struct Vec; #[allow(dead_code)] struct GenericArray; #[allow(dead_code)] struct Option; #[allow(dead_code)] struct Default; #[allow(dead_code)] struct Result; #[allow(dead_code)] enum ShadowedVariants { Ok, Err, Some, None } #[allow(unused_imports)] use ShadowedVariants::*; #[allow(unused_macros)] macro_rules! vec { ($($t:tt)*) => { compile_error!(\"the caller's own vec! macro\") } }";
         let ga = "generic_array::GenericArray";
         let bx = "std::boxed::Box";
         return match form {
